@@ -24,6 +24,7 @@ class ModuleInfo:
         self.functions = {}     # name -> FunctionDef
         self.classes = {}       # name -> (ClassDef, {method name -> FunctionDef}, [base names])
         self.constants = {}     # module-level NAME = constant
+        self.global_exprs = {}  # module-level NAME = <other expression> (all assignments)
         self._scan()
 
     def _scan(self):
@@ -52,9 +53,13 @@ class ModuleInfo:
         elif isinstance(node, ast.Assign) and len(node.targets) == 1 and isinstance(node.targets[0], ast.Name):
             if isinstance(node.value, ast.Constant):
                 self.constants[node.targets[0].id] = node.value.value
+            else:
+                self.global_exprs.setdefault(node.targets[0].id, []).append(node.value)
         elif isinstance(node, ast.AnnAssign) and isinstance(node.target, ast.Name) and node.value is not None:
             if isinstance(node.value, ast.Constant):
                 self.constants[node.target.id] = node.value.value
+            else:
+                self.global_exprs.setdefault(node.target.id, []).append(node.value)
         elif isinstance(node, ast.Try):
             for n in node.body:
                 self._scan_stmt(n, pkg)
